@@ -28,6 +28,8 @@ CONSTANTS
     MaxRepeats,      \* maxRepeats (25)
     RootRule,        \* "genesis": only the genesis vertex is valid by being a root (repaired code);
                      \* "anyroot": every live root is valid without accounting (pinned code, finding F9)
+    CanonRule,       \* "guarded": amounts with supplementary >= 10^18 are refused where transactions enter the
+                     \* ledger (repaired code); "none": nothing checks it (pinned code, finding F7b)
     CkSelf           \* "both": a checkpointed self-transfer counts on both sides (repaired code);
                      \* "incomeonly": its outflow is lost (pinned code, finding F8)
 
@@ -41,14 +43,15 @@ NoW == "none"
 Max2(a, b) == IF a >= b THEN a ELSE b
 
 (***************************************************************************)
-(* Transactions are records [id, iss, rcv, amt, data]; vertices are         *)
+(* Transactions are records [id, iss, rcv, amt, data, nc] (nc: the amount    *)
+(* is not canonical, supplementary >= 10^18); vertices are                   *)
 (* records [trx, sealer, l, r, w, ok].  `ok` is FALSE for a vertex whose    *)
 (* hash or one of whose signatures does not verify.                         *)
 (***************************************************************************)
 IsSpice(t) == t.amt > 0
 IsEmptyTrx(t) == ~t.data /\ t.amt = 0
 
-GenesisTrx(n) == [id |-> "g", iss |-> n, rcv |-> GR, amt |-> Supply, data |-> FALSE]
+GenesisTrx(n) == [id |-> "g", iss |-> n, rcv |-> GR, amt |-> Supply, data |-> FALSE, nc |-> FALSE]
 GenesisVtx(n) == [trx |-> GenesisTrx(n), sealer |-> n, l |-> NoV, r |-> NoV, w |-> 0, ok |-> TRUE]
 
 V(v) == vtx[v]
@@ -133,6 +136,7 @@ AddVertex(b, v) ==
 ProposeGuard(b, n, t) ==
     IF ~b.loaded THEN "notloaded"
     ELSE IF IsEmptyTrx(t) THEN "empty"
+    ELSE IF t.nc /\ CanonRule = "guarded" THEN "noncanonical"
     ELSE IF t.iss = n THEN "ownnode"
     ELSE IF t.iss = b.gen THEN "genesisissuer"
     ELSE IF b.index[t.id] # NoV THEN "trxexists"
@@ -182,6 +186,7 @@ DeliverFrontGuard(b, v) ==
     IF ~b.loaded THEN "notloaded"
     ELSE IF T(v).iss = V(v).sealer THEN "ownnode"
     ELSE IF IsEmptyTrx(T(v)) THEN "empty"
+    ELSE IF T(v).nc /\ CanonRule = "guarded" THEN "noncanonical"
     ELSE "pass"
 
 \* checks of addLeafMemorized before the lock
@@ -292,6 +297,7 @@ LoadInsert(b, s) ==
 LoadLinkOK(b) ==
     /\ Cardinality({v \in b.live : T(v).iss = V(v).sealer}) <= 1
     /\ \A v \in b.live : ~IsEmptyTrx(T(v))
+    /\ CanonRule = "guarded" => \A v \in b.live : ~T(v).nc
     /\ \A v \in b.live : DeclaredParents(v) \subseteq b.live
 
 \* a vertex whose two declared parents are NoV links nothing (both equal the initial addedHash);
@@ -379,6 +385,9 @@ C10_SealingRules ==
         \/ /\ T(v).iss # V(v).sealer
            /\ T(v).iss # book[n].gen
            /\ ~IsEmptyTrx(T(v))
+
+\* C05 (ledger side): an amount that is not canonical is never accepted into the ledger
+C05_CanonicalOnly == \A n \in Loaded : \A v \in Held(book[n]) : ~T(v).nc
 
 \* C01: a spice transfer sealed by a non-trusted node gains its first child only if the funds of
 \* its issuer in the history it builds on cover all the issuer's spends there
